@@ -70,8 +70,8 @@ func Enc(v Val) string {
 }
 
 // Opt encodes an option: none = (), some v = ( v ).
-func None() Val       { return L{} }
-func Some(v Val) Val  { return L{v} }
+func None() Val      { return L{} }
+func Some(v Val) Val { return L{v} }
 func Strs(ss []string) Val {
 	out := make(L, 0, len(ss))
 	for _, s := range ss {
@@ -110,9 +110,9 @@ func (r *Rand) Intn(n int) int {
 	}
 	return int(r.U64() % uint64(n))
 }
-func (r *Rand) Bool() bool       { return r.U64()&1 == 1 }
-func (r *Rand) Chance(p int) bool { return r.Intn(100) < p } // p percent
-func (r *Rand) Fork() *Rand      { return NewRand(r.U64()) }
+func (r *Rand) Bool() bool              { return r.U64()&1 == 1 }
+func (r *Rand) Chance(p int) bool       { return r.Intn(100) < p } // p percent
+func (r *Rand) Fork() *Rand             { return NewRand(r.U64()) }
 func (r *Rand) Pick(ss []string) string { return ss[r.Intn(len(ss))] }
 func (r *Rand) Bytes(n int) []byte {
 	b := make([]byte, n)
